@@ -282,7 +282,7 @@ fn finish(sink: &mut Sink, p: &Program, joined: Vec<(Handle, Vec<String>, Option
                     let again = poll_once(&mut s, &w);
                     if again != "Pending" {
                         // not being told about the END of the stream is a failure of C03 as well
-                        sink.oracle_fail(if again == "End" { "C02,C03" } else { "C02,C04" }, &format!("thread {t}: its last poll answered Pending, its waker was never woken, yet a further poll answers {again} (lost wakeup)"));
+                        sink.oracle_fail(if again == "End" { "C02,C03,C01" } else { "C02,C04,C01" }, &format!("thread {t}: its last poll answered Pending, its waker was never woken, yet a further poll answers {again} (lost wakeup)"));
                     }
                 }
                 // C04: a value is handed out together with the version it belongs to: when every written value is different,
@@ -359,7 +359,7 @@ fn finish(sink: &mut Sink, p: &Program, joined: Vec<(Handle, Vec<String>, Option
     }
     // C02: when the last owner has gone, every subscriber whose poll answered Pending has been woken
     if owners == 0 { for t in unwoken_pending {
-        sink.oracle_fail("C02", &format!("thread {t}: its last poll answered Pending, every owner has been dropped since, and its waker was never woken"));
+        sink.oracle_fail("C02,C01", &format!("thread {t}: its last poll answered Pending, every owner has been dropped since, and its waker was never woken"));
     } }
     if closed != (owners == 0) {
         sink.oracle_fail("C03", &format!("at quiescence the stream is {} while {owners} owner(s) exist", if closed { "ended" } else { "open" }));
